@@ -644,11 +644,38 @@ func deferredAfter(fn *ssa.Function, at ssa.Instruction, m CallMatcher) bool {
 // tested with a failing edge that leads only to error exits, or returned
 // directly.
 func requirePropagatesOrReturned(c *Ctx, rule string, fn *ssa.Function, m CallMatcher, what string) {
+	if propagatesRec(c, rule, fn, m, what, 0) == 0 {
+		c.Violate(rule, FuncName(fn)+"|"+what, c.P.Pos(fn.Pos()), "no call of "+what+" found (rule table out of date)")
+	}
+}
+
+// propagatesRec decides the calls in fn and, when part of fn was moved into
+// functions new since the anchor snapshot, the calls there plus the
+// propagation of each such helper's own error in fn. It returns the number of
+// matching calls seen.
+func propagatesRec(c *Ctx, rule string, fn *ssa.Function, m CallMatcher, what string, depth int) int {
 	p := c.P
 	calls := CallSinks(fn, m, false)
-	if len(calls) == 0 {
-		c.Violate(rule, FuncName(fn)+"|"+what, p.Pos(fn.Pos()), "no call of "+what+" found (rule table out of date)")
-		return
+	n := len(calls)
+	if depth < 2 {
+		seen := map[*ssa.Function]bool{}
+		for _, ci := range CallsIn(fn) {
+			h := CalleeFunc(ci.Common())
+			if h == nil || h == fn || h.Blocks == nil || !IsRepoFunc(h) || !IsNewFunc(h) || !ContainsCall(h, m) {
+				continue
+			}
+			site, isCall := ci.(*ssa.Call)
+			if !isCall || ErrIndex(h) < 0 {
+				c.Violate(rule, FuncName(fn)+"|"+what, p.Pos(InstrPos(ci)), what+" is called inside "+FuncName(h)+", which cannot hand its error back to "+FuncName(fn))
+				n++
+				continue
+			}
+			if !seen[h] {
+				seen[h] = true
+				n += propagatesRec(c, rule, h, m, what, depth+1)
+			}
+			propagatesRec(c, rule, fn, func(cc *ssa.CallCommon) bool { return cc == &site.Call }, what+" (inside "+h.Name()+")", 2)
+		}
 	}
 	for _, cs := range calls {
 		call := cs.(*ssa.Call)
@@ -689,6 +716,7 @@ func requirePropagatesOrReturned(c *Ctx, rule string, fn *ssa.Function, m CallMa
 		}
 		c.Check(bad == "", rule, FuncName(fn)+"|"+what, p.Pos(InstrPos(call)), orDefault(bad, "error of "+what+" ends the handler with an error"))
 	}
+	return n
 }
 
 // attachFlagShape checks the "all parents attached" flag of canAttachOrRemove:
